@@ -22,15 +22,15 @@ TRANSLATORS = ["semiring", "rules"]
 LEVEL_TEXT = ("Theorems in coq/props/C03.v: for every function, every choice vector with a derivation of the flow calculus (Calculus.v, built on the "
               "rule table regenerated from analysis.py on every run) and every execution path of the exact path-wise semantics (Exec.v: expanded "
               "polynomials, any branch outcomes and iteration counts), the final value of each variable has the shape its matrix column allows "
-              "(C03_shape, all statement forms, no size bound); counted-loop guard lemmas; C03_reported transfers this to the matrix the analysis "
-              "model reports, with C01's finite_result statement as an explicit premise. The real tool is tied in by a search: every valid vector's "
+              "(C03_shape, all statement forms, no size bound); counted-loop guard lemmas; C03_reported / C03_reported_closed transfer this to the "
+              "matrix the analysis model reports at every accepted vector (once with C01's finite_result statement as an explicit premise, once with "
+              "it discharged by the closed theorem An_closed.finite_result). The real tool is tied in by a search: every valid vector's "
               "matrix column and bound triple against an independent symbolic executor on all paths up to K iterations, and by correspondence runs "
               "(Exec.v = the executor's semantics; Analysis.v = the real analysis on the same programs).")
 LEVEL_NOTE = ("Trusted: Coq kernel; Exec.v as the specification of C executions of the fragment (no subtraction: '-' read as '+', as the calculus does; "
-              "loop counts arbitrary; for-headers not executed); translators rules/semiring; the reader tools/cread.py; generators. C03_reported has "
-              "the premise An_stmts.finite_result_stmt (property C01's theorem, still being closed) - until then the link 'reported matrix = derived "
-              "matrix' is covered by the search and the C01 correspondence, not by a closed theorem. The statement is the property's shape clause, "
-              "not the paper's quantitative soundness.")
+              "loop counts arbitrary; for-headers not executed); translators rules/semiring; the reader tools/cread.py; generators. The theorems are the "
+              "property's shape clause, not the paper's quantitative soundness; the search additionally runs concrete executions (for-loop count = "
+              "value of the guard) and requires every input a final value strictly grows with to be listed in its bound.")
 TECHNIQUE = "Coq proof (induction along derivations over an exact path semantics) + symbolic-execution oracle search on the real tool + vm_compute correspondence"
 EXPLANATION = "see LEVEL_TEXT"
 ASSUMPTIONS = ["functions of the constant-free fragment (copies, + - * of variables, if/else, while/do-while, counted for-loops whose guard is not in the body)",
@@ -87,7 +87,7 @@ def examine(src, K, cap, rng, max_vecs=243):
     """everything C03 says about one program.  Returns dict: status, failing [...], counts, and the data the
     correspondence needs (typed function, variables, paths, final stores)."""
     out = {"src": src, "status": None, "failing": [], "paths": 0, "vectors": 0, "checks": 0, "exhaustive": False,
-           "typed": None, "vs": None, "runs": [], "rec": None, "toobig": 0}
+           "typed": None, "vs": None, "runs": [], "rec": None, "toobig": 0, "growth_pairs": 0, "growth_checks": 0}
     try:
         typed0 = read_typed(src)
     except cread.OutsideFragment:
@@ -135,6 +135,8 @@ def examine(src, K, cap, rng, max_vecs=243):
         runs.append((p, st, {v: SX.summary(st[v]) for v in vs}))
     out["runs"] = runs
     out["paths"] = len(runs)
+    grows = SX.growth(f, vs)
+    out["growth_pairs"] = len(grows)
     if d["infinite"]:
         out["status"] = "infinite"
         return out
@@ -161,6 +163,19 @@ def examine(src, K, cap, rng, max_vecs=243):
                 out["failing"].append({"what": f"bound-triple: bound of {v} at choice {list(c)} is not its matrix column", "sig": ["C03", "bound-triple"],
                                        "input": {"src": src, "choice": list(c), "var": v}, "expected": col, "observed": bcol})
                 return out
+            for (u, v2), wit in grows.items():
+                if v2 != v:
+                    continue
+                out["growth_checks"] += 1
+                if bcol.get(u, "o") == "o":
+                    out["failing"].append({
+                        "what": f"growth: the final value of {v} strictly grows with the input {u} (from {wit['final_values'][0]} to {wit['final_values'][1]} when {u} "
+                                f"goes from {wit['values_of_input'][0]} to {wit['values_of_input'][1]}, other inputs 2) but {u} is not in the bound {bcol} of {v} "
+                                f"at choice {list(c)}",
+                        "sig": ["C03", "growth", "input-not-listed"],
+                        "input": {"src": src, "choice": list(c), "var": v, "run": wit},
+                        "expected": f"{u} listed in the bound of {v}", "observed": bcol})
+                    return out
             for (p, st, summ) in runs:
                 if v not in summ:
                     continue
@@ -180,8 +195,8 @@ def examine(src, K, cap, rng, max_vecs=243):
 # ---------------- non-strict: a guard-in-body loop contributes nothing ----------------
 
 def drop_guard_fors(ss):
-    """copy of a generated tree with every for-loop whose guard may occur in its body replaced by ';' -- decided on the
-    typed reading, so the tree is re-read after rendering (see nonstrict_check)"""
+    """copy of a generated tree with every for-loop whose guard name occurs in the text of its body replaced by ';'
+    (nonstrict_check re-reads the rendered text and makes sure no such loop is left)"""
     out = []
     for s in ss:
         k = s[0]
@@ -220,11 +235,18 @@ def nonstrict_check(src, ss, vars_):
     da, db = a["funcs"].get("f"), b["funcs"].get("f")
     if da is None or db is None:
         return None
-    obs = lambda d: {"infinite": d["infinite"], "index": d["index"], "variables": d["variables"], "relation": d["relation"], "valid": d["valid"]}
-    if obs(da) != obs(db):
-        diff = [k for k in obs(da) if obs(da)[k] != obs(db)[k]]
-        return {"what": "guard-in-body: non-strict result differs from the result without the for-loop whose guard occurs in its body "
-                        f"(fields {diff})", "sig": ["C03", "guard-in-body", "nonstrict-counted"],
+    def obs(d):
+        o = {"infinite": d["infinite"], "index": d["index"], "variables": d["variables"], "valid": d["valid"], "bound": d["bound"]}
+        rel = d.get("apply")
+        if rel is not None and d["valid"] is not None and not d["infinite"]:
+            o["matrices"] = [rel.apply_choice(*c).matrix
+                             for c, ok in zip(itertools.product((0, 1, 2), repeat=d["index"]), d["valid"]) if ok]
+        return o
+    oa, ob = obs(da), obs(db)
+    if oa != ob:
+        diff = [k for k in oa if oa[k] != ob.get(k)]
+        return {"what": "guard-in-body: non-strict result (verdict, degree, variables, valid vectors, their matrices, bound) differs from the result "
+                        f"without the for-loop whose guard occurs in its body (fields {diff})", "sig": ["C03", "guard-in-body", "nonstrict-counted"],
                 "input": {"src": src, "without_loop": src2}, "expected": "equal results", "observed": diff}
     return True
 
@@ -339,8 +361,8 @@ def store_size(st):
 def run(ctx):
     vlib.import_pymwp()
     K = ctx.n(2, 3)
-    cap = ctx.n(120, 400)
-    n = ctx.n(500, 3000)
+    cap = ctx.n(120, 300)
+    n = ctx.n(700, 2000)
     max_sites = ctx.n(5, 6)
     progs = [(lab, src, None, None) for lab, src in CORPUS]
     for i in range(n):
@@ -350,14 +372,18 @@ def run(ctx):
     import time
     t0 = time.time()
     status = {}
-    tot = {"paths": 0, "vectors": 0, "checks": 0, "exhaustive": 0, "toobig": 0, "nonstrict_guard_checks": 0}
+    tot = {"paths": 0, "vectors": 0, "checks": 0, "exhaustive": 0, "toobig": 0, "nonstrict_guard_checks": 0, "growth_pairs": 0, "growth_checks": 0}
     exec_cases, model_cases, recs, samples = [], [], [], []
     kinds = {"while": 0, "for": 0, "if": 0, "mul": 0}
+    nshrunk = 0
     for lab, src, ss, vars_ in progs:
+        if len(failing) >= 12:
+            break       # enough witnesses; the first ones are shrunk
         ex = examine(src, K, cap, ctx.rng)
         status[ex["status"]] = status.get(ex["status"], 0) + 1
         for fl in ex["failing"]:
-            if ss is not None and fl["sig"][1] in ("shape", "guard-in-body", "bound-triple"):
+            if ss is not None and nshrunk < 3 and fl["sig"][1] in ("shape", "guard-in-body", "bound-triple", "growth"):
+                nshrunk += 1
                 small = shrink(ss, vars_, fl["sig"], K, cap, ctx.rng)
                 if small:
                     small["shrunk_from"] = src
@@ -369,7 +395,7 @@ def run(ctx):
                 tot["nonstrict_guard_checks"] += 1
             elif r:
                 failing.append(r)
-        for kk in ("paths", "vectors", "checks", "toobig"):
+        for kk in ("paths", "vectors", "checks", "toobig", "growth_pairs", "growth_checks"):
             tot[kk] += ex[kk]
         if ex["typed"] is not None:
             tot["exhaustive"] += 1 if ex["exhaustive"] else 0
@@ -378,7 +404,7 @@ def run(ctx):
             for kk, pat in (("while", "'while'"), ("for", "'for'"), ("if", "'if'"), ("mul", "'*'")):
                 kinds[kk] += 1 if pat in txt else 0
             # correspondence material: the longest path and one random path of this program
-            runs = [r for r in ex["runs"] if store_size(r[1]) <= 1500]
+            runs = [r for r in ex["runs"] if store_size(r[1]) <= 1000]
             if runs:
                 pick = [max(runs, key=lambda r: len(repr(r[0])))]
                 pick.append(ctx.rng.choice(runs))
@@ -398,7 +424,7 @@ def run(ctx):
     for (lab, f, p, st, vs) in list(exec_cases[:10]):
         bad_p = ("seq", p[1] + [("leaf",)])
         exec_cases.append((lab + "/long-path", f, bad_p, SX.exec_func(bad_p, f, vs), vs))
-    lim = ctx.n(200, 1000)
+    lim = ctx.n(200, 600)
     if len(exec_cases) > lim:
         head = exec_cases[:len(CORPUS)]
         rest = exec_cases[len(CORPUS):]
@@ -425,7 +451,8 @@ def run(ctx):
                      "non-trivial = distinct analysed, not infinite typed function with >= 1 site and a loop or branch",
              "samples": samples, "programs": len(progs), "status": status, "paths": tot["paths"], "valid_vectors": tot["vectors"],
              "programs_with_all_paths": tot["exhaustive"], "paths_skipped_value_too_big": tot["toobig"],
-             "nonstrict_guard_in_body_checks": tot["nonstrict_guard_checks"], "statement_kinds": kinds,
+             "nonstrict_guard_in_body_checks": tot["nonstrict_guard_checks"],
+             "growth_pairs": tot["growth_pairs"], "growth_checks": tot["growth_checks"], "statement_kinds": kinds,
              "coq_exec_cases": len(exec_cases), "coq_model_cases": len(model_cases), "K": K, "cap": cap}
     return {"failing": failing, "corr_mismatch": mism, "stats": stats}
 
@@ -433,8 +460,6 @@ def run(ctx):
 def replay(ctx, data):
     vlib.import_pymwp()
     inp = data.get("input", data)
-    ex = examine(inp["src"], ctx.n(2, 3), ctx.n(120, 400), ctx.rng)
+    ex = examine(inp["src"], ctx.n(2, 3), ctx.n(120, 300), ctx.rng)
     return ex["failing"][0] if ex["failing"] else None
 
-
-NOT_CLAIMED = "in progress"
